@@ -249,6 +249,62 @@ theorem setup_obj (be : Backend) (st s0 : State) (rc : Int) (e : EavT) (hobj : s
           · split at hs <;> (simp only [Except.ok.injEq, Prod.mk.injEq] at hs; rw [← hs.1]; simp)
         · simp only [Except.ok.injEq, Prod.mk.injEq] at hs; rw [← hs.1]; simp
 
+/-- **a refused creation of the back end's context changes nothing but the message**: `eav_setup` for mode 6531 on an idnkit object whose
+resolver context cannot be created returns the IDN error, and the object keeps the mode confirmed by the last successful `eav_setup`, its
+settings, its record and its ledger (`partial/idnkit/eav.c` after 292433e: the switch to UTF-8 is made only after `init_idn` succeeded) -/
+theorem failed_create_keeps_mode (st : State) (e : EavT) (r : Int) (h : st.obj = some e) (h3 : e.rfc = 3) (hi : e.initialized = false) :
+    eavSetupFail .idnkit st r = .ok ({ st with obj := some { e with idnmsg := some r } }, -(E.IDN_ERROR : Int)) ∧
+      C01.modeOfObj { e with idnmsg := some r } = C01.modeOfObj e := by
+  refine ⟨?_, rfl⟩
+  unfold eavSetupFail
+  simp [h, h3, hi]
+
+/-- ... and the next validation does not see it: `eav_is_email` on the object after the refused creation returns what it returns on the
+object before it, and leaves the same state behind (the message stored by `init_idn` is overwritten by every validation) -/
+theorem failed_create_invisible (b : Build) (conv : List Nat → Conv) (st : State) (e : EavT) (r : Int) (a : List Nat) (h : st.obj = some e) :
+    eavIsEmail b conv { st with obj := some { e with idnmsg := some r } } a = eavIsEmail b conv st a := by
+  unfold eavIsEmail
+  simp only [h]
+  rfl
+
+/-- in every other situation nothing is created, so nothing can fail: the call is `eav_setup` -/
+theorem setupFail_eq_setup (be : Backend) (st : State) (e : EavT) (r : Int) (h : st.obj = some e)
+    (hn : be ≠ .idnkit ∨ e.rfc ≠ 3 ∨ e.initialized = true) : eavSetupFail be st r = eavSetup be st := by
+  unfold eavSetupFail
+  simp only [h]
+  split
+  · rename_i hc
+    simp only [Bool.and_eq_true, beq_iff_eq, Bool.not_eq_true'] at hc
+    rcases hn with h1 | h1 | h1
+    · exact absurd hc.1.1 h1
+    · exact absurd hc.1.2 h1
+    · rw [hc.2] at h1; cases h1
+  · rfl
+
+/-- the invariant and the ledger survive a setup in which the context cannot be created -/
+theorem inv_setupFail (be : Backend) (st st' : State) (r : Int) (rc : Int) (hinv : Inv be st) (h : eavSetupFail be st r = .ok (st', rc)) :
+    Inv be st' ∧ st'.liveResults = st.liveResults := by
+  unfold eavSetupFail at h
+  cases hobj : st.obj with
+  | none => simp [hobj] at h
+  | some e =>
+    simp only [hobj] at h
+    split at h
+    · simp only [Except.ok.injEq, Prod.mk.injEq] at h
+      obtain ⟨rfl, _⟩ := h
+      unfold Inv at hinv ⊢
+      rw [hobj] at hinv
+      exact ⟨hinv, rfl⟩
+    · exact inv_setup be st st' rc hinv h
+
+theorem setupFail_obj (be : Backend) (st s0 : State) (r : Int) (rc : Int) (e : EavT) (hobj : st.obj = some e)
+    (hs : eavSetupFail be st r = .ok (s0, rc)) : s0.obj ≠ none := by
+  unfold eavSetupFail at hs
+  simp only [hobj] at hs
+  split at hs
+  · simp only [Except.ok.injEq, Prod.mk.injEq] at hs; rw [← hs.1]; simp
+  · exact setup_obj be st s0 rc e hobj hs
+
 theorem free_obj (be : Backend) (st s0 : State) (e : EavT) (hobj : st.obj = some e)
     (hs : eavFree be st = .ok s0) : s0.obj ≠ none := by
   unfold eavFree at hs
@@ -306,6 +362,14 @@ theorem run_inv (be : Backend) (b : Build) : ∀ (ops : List Op) (st st' : State
               simp only [Except.ok.injEq, Prod.mk.injEq] at hstep
               rw [← hstep.1]
               exact (inv_setup be st s0 rc hinv hs).1
+          | setupFail r =>
+            simp only [step] at hstep
+            split at hstep
+            · cases hstep
+            · rename_i s0 rc hs
+              simp only [Except.ok.injEq, Prod.mk.injEq] at hstep
+              rw [← hstep.1]
+              exact (inv_setupFail be st s0 r rc hinv hs).1
           | isEmail a c =>
             simp only [step] at hstep
             split at hstep
@@ -393,6 +457,14 @@ where
                 simp only [Except.ok.injEq, Prod.mk.injEq] at hstep
                 rw [← hstep.1]
                 exact C13.setup_obj be st s0 rc e hobj hs
+            | setupFail r =>
+              simp only [step] at hstep
+              split at hstep
+              · cases hstep
+              · rename_i s0 rc hs
+                simp only [Except.ok.injEq, Prod.mk.injEq] at hstep
+                rw [← hstep.1]
+                exact C13.setupFail_obj be st s0 r rc e hobj hs
             | isEmail a c =>
               simp only [step] at hstep
               split at hstep
